@@ -193,7 +193,9 @@ def _find_ocean_floor_indexes(
     # Item 0 in the column will be nan, resulting in nan in the output as desired.
     depth_indexes = (data_array * 0 + 1).cumsum(str(depth_dimension))
     max_depth_indexes = depth_indexes.argmax(str(depth_dimension))
-    return cast(xarray.DataArray, max_depth_indexes)
+    # The indexes are used for vectorised indexing, which needs a concrete array.
+    # For dask backed data arrays the indexes are lazy and must be computed first.
+    return cast(xarray.DataArray, max_depth_indexes.compute())
 
 
 def normalize_depth_variables(
